@@ -95,7 +95,7 @@ func main() {
 	r.Rule = "PRNG trees of 8 shape classes (empty, single leaf, deep prefix chain, adversarial alphabet {00,01,7f,80,ff,a,b} small/medium, dense 1-2 byte keys, big values, large random up to 1200 (quick) / 5000 (thorough) keys) " +
 		"are committed and finalized in a source NodeDB (badger or pathbadger, state or IO root, version 1..4); per tree 6 (quick) / 20 (thorough) parameter sets (chunk size class 1/tiny/small/mid/larger-than-tree x chunker threads 0,1,2,3-8,9-32): " +
 		"CreateCheckpoint twice in separate directories (Metadata must be equal), restore into an empty DB of EACH backend (thorough: the first 4 parameter sets of a tree; the other 16 restore into one backend) with a PRNG order class " +
-		"(sequential, reverse, shuffled, shuffled with duplicates, 4 concurrent callers with duplicates, abort-and-restart, GATED = forced interleaving: 1-3 PRNG-chosen chunks are submitted by callers whose readers block inside Read, all other callers return, then they are released one by one in PRNG order; " +
+		"(sequential, reverse, shuffled, shuffled with duplicates, 4 concurrent callers with duplicates [a stall of the callers is judged from two goroutine dumps: all callers blocked in node database mutexes = deadlock violation, the database is abandoned], abort-and-restart, GATED = forced interleaving: 1-3 PRNG-chosen chunks are submitted by callers whose readers block inside Read, all other callers return, then they are released one by one in PRNG order; " +
 		"as the production callers do, the harness finalizes and reads back as soon as ANY call reports done=true, while stragglers are still blocked), Finalize, full read-back against the reference map, GetRootsForVersion/GetLatestVersion, " +
 		"checkpoint of the restored DB must reproduce the Metadata; plus (same parameter sets) a corruption series on one backend (each selected chunk x {bitflip, truncate, append, swapped, chunk of other checkpoint of same/other root, wrong metadata digest, metadata digest of a foreign proof}: " +
 		"must be rejected; a fresh-DB restore mixing rejected and honest submissions must end identical; after only rejected submissions abort+reopen must show no root and a subsequent honest restore must end identical). " +
@@ -399,12 +399,23 @@ func (rn *runner) runTree(ti int, onlyParam int) {
 				func() {
 					defer guard("restore/"+backend+"/"+order, &pw)
 					defer timed("restore/" + backend + "/" + order)()
+					if order == "concurrent4" && concurrentRestoreDisabled(backend) {
+						// Concurrent restores of this backend deadlock (already reported): do not
+						// pile up abandoned databases.
+						st.add("concurrent_restores_replaced_after_deadlocks/"+backend, 1)
+						order = "shuffled"
+						pw.Step = "restore/" + backend + "/" + order
+					}
+					fc := &facts{want: want}
 					dst := mustOpen(backend, "")
-					defer dst.Close()
+					defer func() {
+						if !fc.abandonDB {
+							dst.Close()
+						}
+					}()
 					orng := r.Rand(12, uint64(ti), uint64(p), 3, uint64(bi))
 					r.Eval(1)
 					st.add("restores/"+backend+"/"+order, 1)
-					fc := &facts{want: want}
 					pw.Facts = fc
 					pr := honestRestore(ctx, dst, backend, meta, chunks, order, orng, st, fc)
 					for _, x := range fc.extra {
